@@ -421,6 +421,11 @@ func (c *Ctx) boundedByBalance(v, name ssa.Value, fn *ssa.Function, b *ssa.Basic
 			}
 			return "neither operand of the minimum is balance+grant of the account debited"
 		}
+		// the balance of the account debited itself (a fresh copy handed out by the reader, to
+		// which the grant is then added in place)
+		if c.isBalanceOf(x, name, r) {
+			return ""
+		}
 		if tn, m := core.BigMethod(&x.Call); tn == "Int" {
 			args := core.CallArgs(&x.Call)
 			switch m {
@@ -735,6 +740,13 @@ func (c *Ctx) PostingsAppliedToCache(ob *core.Obligation, r *Roles) {
 			}
 		}
 		// the body may be a helper that is handed the posting, called on every iteration
+		subst := map[ssa.Value]ssa.Value{}
+		pf := func(v ssa.Value) *types.Var {
+			if a, ok := subst[core.Strip(v)]; ok {
+				return postingFieldOf(a)
+			}
+			return postingFieldOf(v)
+		}
 		var scan []ssa.CallInstruction
 		if applier != nil {
 			c.Touch(applier)
@@ -743,9 +755,13 @@ func (c *Ctx) PostingsAppliedToCache(ob *core.Obligation, r *Roles) {
 					scan = append(scan, c2)
 				}
 			}
+			scan = append(scan, c.perPostingHelperCalls(applier, applierHead, subst, r)...)
 		}
 		scan = append(scan, core.Calls(fn)...)
 		if head != nil {
+			scan = append(scan, c.perPostingHelperCalls(fn, head, subst, r)...)
+		}
+		if false {
 			for _, ci := range core.Calls(fn) {
 				sc := ci.Common().StaticCallee()
 				if sc == nil || sc == fn || len(sc.Blocks) == 0 || relOfFn(sc) != "internal/interpreter" {
@@ -789,13 +805,13 @@ func (c *Ctx) PostingsAppliedToCache(ob *core.Obligation, r *Roles) {
 			var who, asset, amount bool
 			var whoF *types.Var
 			for _, a := range rd.Call.Args {
-				if f := postingFieldOf(a); f == r.PostSrc || f == r.PostDst {
+				if f := pf(a); f == r.PostSrc || f == r.PostDst {
 					who, whoF = true, f
 				} else if f == r.PostAsset {
 					asset = true
 				}
 			}
-			if f := postingFieldOf(args[2]); f == r.PostAmt {
+			if f := pf(args[2]); f == r.PostAmt {
 				amount = true
 			}
 			if !who || !asset || !amount || cellKey(args[1]) != cellKey(args[0]) {
@@ -846,6 +862,48 @@ func (c *Ctx) PostingsAppliedToCache(ob *core.Obligation, r *Roles) {
 	if n == 0 {
 		ob.Unknown("apply-postings:none", "-", "no function that reconciles and applies postings found")
 	}
+}
+
+// perPostingHelperCalls: the calls made by helpers of the package that are handed one posting
+// on every iteration of the loop headed by head in fn (each call lying on every path of its
+// helper).
+func (c *Ctx) perPostingHelperCalls(fn *ssa.Function, head *ssa.BasicBlock, subst map[ssa.Value]ssa.Value, r *Roles) []ssa.CallInstruction {
+	var out []ssa.CallInstruction
+	for _, ci := range core.Calls(fn) {
+		sc := ci.Common().StaticCallee()
+		if sc == nil || sc == fn || len(sc.Blocks) == 0 || relOfFn(sc) != "internal/interpreter" {
+			continue
+		}
+		takesPosting := false
+		for _, prm := range sc.Params {
+			if typeShort(derefT(prm.Type())) == "Posting" {
+				takesPosting = true
+			}
+		}
+		// or it is handed the fields of the posting one by one
+		for ai, a := range ci.Common().Args {
+			if f := postingFieldOf(a); f != nil && r != nil && (f == r.PostSrc || f == r.PostDst || f == r.PostAmt || f == r.PostAsset) && ai < len(sc.Params) {
+				takesPosting = true
+				if subst != nil {
+					subst[sc.Params[ai]] = a
+				}
+			}
+		}
+		// on every iteration: in the loop, and not under any condition other than the loop's own
+		if !takesPosting || !head.Dominates(ci.Block()) || !core.ReachableAvoiding(ci.Block(), head, nil) {
+			continue
+		}
+		if ci.Block() != head.Succs[0] && core.ReachableAvoiding(head.Succs[0], head, map[*ssa.BasicBlock]bool{ci.Block(): true}) {
+			continue
+		}
+		c.Touch(sc)
+		for _, c2 := range core.Calls(sc) {
+			if sc.Blocks[0].Dominates(c2.Block()) && blockOnEveryPath(sc, c2.Block()) {
+				out = append(out, c2)
+			}
+		}
+	}
+	return out
 }
 
 // blockOnEveryPath: every path from the entry of fn to a return passes through b.
